@@ -95,9 +95,31 @@ def jobs(tier, seed):
     return make_jobs(tier, seed, WANT)
 
 
+def _history():
+    """earlier use of the library in the same process: every generator already ran on other shapes with other arguments
+    (a generator's result must not depend on what was generated before - quantifier 'histories')"""
+    import random as _r
+
+    st_py, st_np = _r.getstate(), np.random.get_state()
+    try:
+        _r.seed(5)
+        np.random.seed(5)
+        for gen, r, c, kw in [("gen_dfs", 2, 4, {}), ("gen_dfs", 3, 2, dict(accessible_cells=3, start_coord=[2, 1])), ("gen_prim", 2, 2, dict(do_forks=False)),
+                              ("gen_wilson", 3, 2, {}), ("gen_percolation", 2, 5, dict(p=0.5)), ("gen_dfs_percolation", 4, 2, dict(p=0.3, max_tree_depth=2))]:
+            m = G.call_generator(gen, r, c, kw)
+            m.get_connected_component()
+    finally:
+        _r.setstate(st_py)
+        np.random.set_state(st_np)
+
+
 def _run_gen(job):
     gen, r, c, kwargs = job["gen"], job["r"], job["c"], job["kwargs"]
     want = job["want"]
+    from symx import harness as _H
+
+    with _H.unpatched():
+        _history()
 
     def run(ctx, pinned=None):
         with G.GenEnv(split=job.get("split"), walk_bound=job.get("K")):
@@ -125,6 +147,7 @@ def _run_gen(job):
 
 def _replay_gen(job, inputs, notes):
     gen, r, c, kwargs = job["gen"], job["r"], job["c"], job["kwargs"]
+    _history()
     with G.ScriptedEnv(inputs):
         maze = G.call_generator(gen, r, c, kwargs)
         bad = G.concrete_checks(gen, r, c, kwargs, maze, want=job["want"])
@@ -156,5 +179,5 @@ META = dict(
     stubs=G.STUBS,
     outside=["grids beyond the bound", "kwargs off the grid", "randomized stack (gen_prim, randomized_stack=True) on 9 or more cells without a small accessible_cells cap", "Wilson executions with more than K walk steps (counted as truncated)",
              "grid_shape passed as a tuple to gen_wilson (TypeError; documented type is an array)", "lattice_dim != 2"],
-    assumptions=["draw contracts: random.choice/randint and np.random.randint/choice return any value in range, np.random.rand any real in [0,1)"],
+    assumptions=["fixed pre-history: before every instance each generator has already run once on another shape with other arguments in the same process", "draw contracts: random.choice/randint and np.random.randint/choice return any value in range, np.random.rand any real in [0,1)"],
 )
